@@ -22,6 +22,8 @@ def run(ctx, sess):
     ctx.rule('C01.i', '"for every accepted data type, incl. 1- and 4-bit": the threaded entry queues ceil(count x bits / 8) bytes of the caller\'s block for every width and count residue, so no trailing sub-byte sample is dropped before the writer sees it (shared with C06.13)')
     ctx.rule('C01.j', '"however the writes were split into calls" includes empty ones: with data_length == 0 the block writer jls_wr_fsr_data reaches no store into the writer state (first sample id, block header, counters) - an empty first call must not decide where the signal starts')
     ctx.rule('C01.k', '"however the writes were split into calls", sub-byte types: when a block is flushed, the bits kept in its last, partial byte are the block\'s own remainder (entry_count x width mod 8), computed from the block header - not the running shift state of the packer, which belongs to the call in progress')
+    ctx.rule('C01.l', '"for any signal definition the writer accepts": the alignment keeps the divisibility it established between the block size, the decimation factors and the entries per summary (shared with C16.7) - a definition whose entries per summary is not a multiple of the summary decimation makes upper index levels unreadable')
+    ctx.rule('C01.m', '"however the writes were split into calls", sub-byte types: traced for widths 1 and 4, partly filled blocks and call sizes that stay in the block, fill it exactly or cross into the next ones, the bit packer reads every byte of the caller\'s data exactly once')
     ctx.rule('C01.b', 'grow-to-fit: buffer growth strictly increasing and overflow-free; the grow request covers the on-disk payload size for every residue')
     f = P.fn('jls_core_rd_fsr_level1')
     ctx.saw(f)
@@ -91,6 +93,10 @@ def run(ctx, sess):
     descent_purity(ctx, P, 'C01.f')
     empty_call_rule(ctx, P, 'C01.j')
     block_tail_rule(ctx, P, 'C01.k')
+    packer_reads_rule(ctx, P, 'C01.m')
+    from .common import relay as _relay
+    from . import c16 as _src_c16
+    _relay(ctx, sess, _src_c16.run, {'C16.7': 'C01.l'}, minimum=1)
     from .c06 import sample_bytes_rule
     sample_bytes_rule(ctx, P, 'C01.i')
     from .c11 import pending_index_rule
@@ -208,3 +214,106 @@ def block_tail_rule(ctx, P, rule):
         ctx.ob(rule, ok, fn.name, 'bits kept in the last byte of a flushed block', ev.where(),
                'mask width = %s' % src if ok else
                'the mask width is %s, not the remainder of this block: a block that fills up in the middle of a call is flushed with the shift state left by the previous call, and its last byte takes bits of the next block' % src)
+
+
+def packer_reads_rule(ctx, P, rule):
+    """the bit packer reads every byte of the caller's block exactly once, also when a call crosses storage blocks"""
+    from ..fd import trace_calls, Top, FD
+    from ..ir import strip_casts, show, walk, path_of
+    fn = P.fn('wr_data_inner')
+    ctx.saw(fn)
+    fd = FD(P)
+    keys = {}
+    for b in fn.blocks.values():
+        for e in [ev.e for ev in b.events if ev.e is not None] + ([b.cond] if b.cond is not None else []):
+            for m in walk(e):
+                if m.get('op') == 'member' and m.get('field') in ('shift_amount', 'data_length', 'entry_count', 'shift_buffer'):
+                    for p in (path_of(m), fn.path(m)):
+                        if p is not None:
+                            keys.setdefault(m['field'], set()).add(str(p))
+    need = ('shift_amount', 'data_length', 'entry_count')
+    if not all(k_ in keys for k_ in need):
+        raise AnalysisBroken('wr_data_inner: members not found: %s' % [k_ for k_ in need if k_ not in keys])
+    width_calls = [c for c in fn.calls('jls_datatype_parse_size')]
+    srcp = None
+    for ev in fn.events('decl'):
+        if ev.e is not None and (ev.t or '').startswith('p:') and any(m.get('op') == 'ref' and m.get('name') == fn.params[1]['name'] for m in walk(ev.e)):
+            srcp = ev.name
+    if srcp is None:
+        raise AnalysisBroken('wr_data_inner: source byte pointer not found')
+    lenp = fn.params[2]['name']
+    bad = []
+    n = 0
+    BASE = 0x4000
+    for w in (1, 4):
+        for cap in (16, 24):                        # samples per storage block
+            for have in (0, 3, cap - 3, cap - 1):   # samples already in the block
+                if (have * w) % 8 == 0 and have not in (0,):
+                    pass
+                shift = (have * w) % 8
+                for cnt in (1, 2, 3, 5, 8, 13, cap, cap + 5, 2 * cap + 3):
+                    env = {'self': 1, fn.params[1]['name']: BASE, lenp: cnt}
+                    for k_ in keys['shift_amount']:
+                        env[k_] = shift
+                    for k_ in keys['data_length']:
+                        env[k_] = cap
+                    for k_ in keys['entry_count']:
+                        env[k_] = have
+                    for k_ in keys.get('shift_buffer', ()):
+                        env[k_] = 0
+                    reads = []
+
+                    def upd(env_, field, val):
+                        for k_ in keys[field]:
+                            env_[k_] = val
+
+                    def on_store(ev, env_, sym, reads=reads):
+                        lhs, rhs, o = ev.store_parts()
+                        l0 = strip_casts(lhs)
+                        # loads through the source pointer
+                        for m in walk(rhs or {}):
+                            if m.get('op') == 'sub' and strip_casts(m['k'][0]).get('name') == srcp and isinstance(env_.get(srcp), int):
+                                try:
+                                    reads.append(env_[srcp] + fd.ev(fn, m['k'][1], env_) - BASE)
+                                except Exception:
+                                    pass
+                        # member stores of the writer state: keep the trace's view of them current
+                        if l0.get('op') == 'member' and l0.get('field') in ('entry_count', 'shift_amount', 'shift_buffer') and rhs is not None:
+                            cur = env_.get(sorted(keys[l0['field']])[0], 0)
+                            try:
+                                v = fd.ev(fn, rhs, env_)
+                            except Exception:
+                                return
+                            if o == '=':
+                                nv = v
+                            elif o == '+=':
+                                nv = cur + v
+                            elif o == '-=':
+                                nv = cur - v
+                            else:
+                                return
+                            upd(env_, l0['field'], nv)
+
+                    def on_event(ev, env_, sym, reads=reads):
+                        if ev.k == 'store' and ev.e is not None and ev.e.get('op') == 'un' and ev.e.get('o') == 'post++' and \
+                                strip_casts(ev.e['k'][0]).get('name') == srcp and isinstance(env_.get(srcp), int):
+                            reads.append(env_[srcp] - BASE)
+                        if ev.k == 'call' and ev.callee == 'wr_data':
+                            upd(env_, 'entry_count', 0)          # the block was flushed
+                    try:
+                        calls = trace_calls(P, fn, env, assume_calls={None: 0, 'jls_datatype_parse_size': w}, max_steps=20000,
+                                            on_store=on_store, on_event=on_event, no_inline=('wr_data',))
+                    except Top:
+                        raise AnalysisBroken('wr_data_inner: skeleton not decidable for width %d, %d in block, %d new samples' % (w, have, cnt))
+                    for cal, a, ev in calls:
+                        if cal in ('memcpy', '__builtin_memcpy', '__builtin___memcpy_chk') and len(a) >= 3 and isinstance(a[1], int) and isinstance(a[2], int):
+                            reads.extend(range(a[1] - BASE, a[1] - BASE + a[2]))
+                    n += 1
+                    want = list(range((cnt * w + 7) // 8))
+                    if sorted(reads) != want:
+                        bad.append('width %d, block of %d with %d samples in it, call of %d samples: source bytes read %s, the call provides bytes %s' %
+                                   (w, cap, have, cnt, sorted(reads)[:12], want[:12]))
+    ctx.ob(rule, not bad, fn.name, 'source bytes consumed by the bit packer', fn.where(),
+           '%d (width, block fill, call size) combinations traced: every byte of the block the caller provides is read exactly once' % n if not bad else
+           '; '.join(bad[:2]) + ' (%d of %d combinations): the packer falls out of step with the data of the caller for the rest of the call' % (len(bad), n))
+    ctx.floor('bit packer traces', n, 100)
